@@ -677,6 +677,38 @@ def r9_shape_entries(idx, r):
             r.undecided(f"shapes.append#{i}:{norm(a)[:30] if a is not None else ''}", f, "kind of the recorded shape not recognised", node=c)
 
 
+def r10_bit_loop_and_decode_siblings(idx, r):
+    """(a) Flag sets are arbitrary-width bit fields (armi alone defines more than 64 flags): the loop that remaps the bits of a
+    stored value must run until the value is exhausted, never up to a fixed number of bits.
+    (b) Strings are stored as bytes. Database has sibling readers of parameter datasets (_readParams, getHistories,
+    getHistoriesByLocation ...): every one of them that pulls a dataset and hands values on must turn bytes back into
+    str, like its siblings do."""
+    fs = idx.cls("armi.reactor.composites.FlagSerializer")
+    rb = fs.methods.get("_remapBits") if fs is not None else None
+    if rb is None:
+        raise AnchorMissing("FlagSerializer._remapBits")
+    loops = [n for n in walk_local(rb.node) if isinstance(n, (ast.For, ast.While))]
+    if not loops:
+        raise AnalysisError("_remapBits: bit loop not found")
+    for lp in loops:
+        fixed = isinstance(lp, ast.For) and isinstance(lp.iter, ast.Call) and dotted(lp.iter.func) == "range" and all(isinstance(a, ast.Constant) for a in lp.iter.args)
+        r.require(not fixed, "remapBits:unbounded-bit-loop", rb, node=lp,
+                  msg=f"`{norm(lp.iter) if isinstance(lp, ast.For) else ''}` examines a fixed number of bits: flags at higher bit positions (DEPLETABLE is bit 64, plugin flags come after) "
+                      "are silently dropped whenever the order map has to be applied")
+    db = idx.cls(DB + ".Database")
+    readers = []
+    for name, f in db.methods.items():
+        pulls = [n for n in walk_local(f.node) if isinstance(n, ast.Assign) and isinstance(n.value, ast.Subscript) and isinstance(n.value.value, ast.Name) and n.value.value.id.lower().startswith("dataset")]
+        if pulls:
+            readers.append((f, pulls))
+    if len(readers) < 3:
+        raise AnalysisError(f"only {len(readers)} Database methods that read parameter datasets found")
+    for f, pulls in readers:
+        dec = any(isinstance(c, ast.Call) and dotted(c.func) in ("np.char.decode", "numpy.char.decode") for c in ast.walk(f.node))
+        r.require(dec, f"{f.name}:decodes-bytes", f, node=pulls[0],
+                  msg=f"{f.name} reads parameter datasets but, unlike its sibling readers, never decodes bytes to str: string parameters (xsType, envGroup) come back as b'A'")
+
+
 def run(idx, chk):
     chk.explanation = (
         "C05: pack/unpack are sibling implementations; their attrs key sets, strategy decision trees, None-sentinel tables, "
@@ -702,3 +734,5 @@ def run(idx, chk):
                  necessary="'dictionaries of numbers ... returned with the same values': a key list taken from one object drops the others' entries")
     chk.run_rule("R05.9", "every shape recorded by JaggedArray is a tuple (what unpack iterates), never a bare integer", lambda r: r9_shape_entries(idx, r), floor=2,
                  necessary="'a collection that cannot be represented is rejected at write time; it is never stored as something that reads back different' (or not at all)")
+    chk.run_rule("R05.10", "the bit-remapping loop is unbounded; every sibling reader of parameter datasets decodes bytes to str", lambda r: r10_bit_loop_and_decode_siblings(idx, r), floor=4,
+                 necessary="flag sets keep their meaning (all bits); strings are returned as the same values by every read path")
